@@ -65,6 +65,12 @@ def sideLine (s : Side) (ws : List String) : Side × String :=
         match parseCoord c, v.toInt? with
         | some c, some v =>
           if c ∉ sp.cells then (s, "err Key") else
+          if name = "empty" then
+            -- the program writes the built-in emptiness layer by hand (e.g. to reserve a cell): the value stays until
+            -- an agent enters or leaves that cell
+            let st := s.d.st
+            ({ s with d := { s.d with st := { st with flag := fun k => if k == c then some (v != 0) else st.flag k } } }, "ok")
+          else
           match s.layers.lookup name with
           | none => (s, "err Attr")
           | some vals =>
